@@ -496,6 +496,50 @@ def run(rep):
     except Exception as e:  # Anchor etc.
         rep.error("P6 could not evaluate values_len: %s" % e)
 
+    # ---------------- P8 every destructured clause of a sqlparser node is read
+    rep.rule(
+        "P8",
+        "src/sql/*: every name bound when a sqlparser AST node is taken apart (`let ast::Select { .. } = ..`, `ast::X { a, b, .. } =>`, `ast::X(a)`) is read afterwards - in the function for a `let`, "
+        "in the arm (guard included) for a match arm; an ignored component is written `name: _` or `_name`",
+        floor=120,
+        necessary="'unsupported constructs are reported as errors': a clause that is bound and never read is neither compiled nor refused - `SELECT a FROM t DISTRIBUTE BY a` is accepted and silently "
+        "means `SELECT a FROM t` when the guard tests another clause twice",
+    )
+    from .core import Src as _Src8, walk as _walk8, find as _find8, show as _show8, pat_binds as _binds8
+    from . import facts as _facts8
+
+    src8 = _Src8(_facts8.src_facts())
+
+    def _reads(nodes, name):
+        for nd in nodes:
+            for x in _walk8(nd):
+                if x.get("k") == "path" and x["segs"][0] == name:
+                    return True
+                if x.get("k") == "macro" and name in _show8(x, 0):
+                    return True
+        return False
+
+    for f in src8.fns:
+        if f.test or not f.body or not f.file.startswith("sql/"):
+            continue
+        for st in _walk8(f.body):
+            if st.get("k") == "let" and st["pat"]["k"] in ("struct", "tuplestruct") and st["pat"]["path"]["segs"][0] == "ast":
+                for b in _binds8(st["pat"]):
+                    key = "%s|%s.%s" % (f.qual, "::".join(st["pat"]["path"]["segs"]), b)
+                    rep.instance("P8", key, None, nontrivial=False)
+                    if not b.startswith("_") and not _reads([f.body], b):
+                        rep.violation("P8", key, "`%s` of %s is bound in %s and never read: the clause is neither compiled nor refused" % (b, "::".join(st["pat"]["path"]["segs"]), f.qual), "src/%s:%d" % (f.file, st["l"]))
+        for m in _find8(f.body, "match"):
+            for a in m["arms"]:
+                pats = a["pat"]["cases"] if a["pat"]["k"] == "or" else [a["pat"]]
+                for pt in pats:
+                    if pt["k"] in ("struct", "tuplestruct") and pt["path"]["segs"][0] == "ast":
+                        for b in _binds8(pt):
+                            key = "%s|%s.%s" % (f.qual, "::".join(pt["path"]["segs"]), b)
+                            rep.instance("P8", key, None, nontrivial=False)
+                            if not b.startswith("_") and not _reads([a["body"], a.get("guard") or {}], b):
+                                rep.violation("P8", key, "`%s` of %s is bound in an arm of %s and never read: the component is neither compiled nor refused" % (b, "::".join(pt["path"]["segs"]), f.qual), "src/%s:%d" % (f.file, a["l"]))
+
     # ---------------- P7 fallible images behind the Optional wrapper
     rep.rule(
         "P7",
